@@ -540,6 +540,22 @@ struct VM : VMBase
         fen.before_close = [](quill::fs::path const&, FILE*) {};
         fen.after_close = [](quill::fs::path const&) {};
         fen.before_write = [](std::string_view message) { return std::string{message}; };
+        if (plan.get("sink" + std::to_string(i) + "_notifier", 0) == 2)
+        {
+          // the after_open callback fails whenever the sink re-opens its file (it does after somebody deleted the file)
+          auto opens = std::make_shared<int>(0);
+          fen.after_open = [this, i, opens](quill::fs::path const&, FILE*)
+          {
+            if (++*opens >= 2)
+            {
+              ++this->faults_fired[2];
+              this->record(EV_SINK_THROW, i, -1, 1);
+              Ev& e = this->record(EV_NOTE, 4, i);
+              e.s = "reopen";
+              throw std::runtime_error("simulated after_open failure");
+            }
+          };
+        }
         sinks[static_cast<size_t>(i)] = Fe::template create_or_get_sink<quill::FileSink>(path, cfg, fen);
       }
       else
@@ -898,6 +914,17 @@ struct VM : VMBase
       }
       Lg* g = Fe::get_logger(s->name);
       record(EV_GET_LOGGER, s - slots.data(), g != nullptr, g == s->lg);
+      break;
+    }
+    case OP_DELETE_FILE:
+    {
+      size_t i = static_cast<size_t>(op.v[0]) % sinks.size();
+      if (sink_type[i] == 1)
+      {
+        ::unlink(sink_path[i].c_str());
+        Ev& e = record(EV_NOTE, 3, static_cast<int64_t>(i));
+        e.s = "delete_file";
+      }
       break;
     }
     case OP_GET_SINK:
